@@ -26,6 +26,7 @@ const vd_lex *vd_lexicon(int lang)
             if (*sp == 0 || sp == p) continue;
             *sp++ = 0; while (*sp && isspace((unsigned char)*sp)) ++sp;
             if (!*sp) continue;
+            if (!strncmp(p, ";;", 2) || !strncmp(p, "##", 2)) continue;   /* comment lines of the dictionary format */
             if (lx->n == cap) { cap = cap ? cap * 2 : 65536; lx->word = (char **)realloc(lx->word, sizeof(char *) * (size_t)cap); lx->pron = (char **)realloc(lx->pron, sizeof(char *) * (size_t)cap); }
             lx->word[lx->n] = p; lx->pron[lx->n] = sp; ++lx->n;
         }
